@@ -5,10 +5,10 @@
 # then runs every check's quick tier against a scratch copy of the harness pointed at the patched worktree
 # and prints which properties report a VIOLATION. Results: /tmp/wt/<ID>-out/resultN.json
 set -u
-ID="$1"; N="$2"
-WT=/tmp/wt/$ID; OUT=/tmp/wt/$ID-out
+ID="$1"; N="$2"; BASE="${3:-/tmp/wt}"
+WT=$BASE/$ID; OUT=$BASE/$ID-out
 PATCH=$OUT/patch$N.diff; DEMO=$OUT/demo$N.rs
-MH=/tmp/mh/$ID-$N
+MH=/tmp/mh/$(basename $BASE)-$ID-$N
 export CARGO_NET_OFFLINE=true
 cd "$WT" || exit 2
 git checkout -q -- . ; git clean -fdq examples
